@@ -6,7 +6,7 @@ import numpy as np
 
 from symx import core, env, lam, harness, vfs, symnp as snp
 from symx.core import SymInt, SymReal, sand, sor, snot, implies, ite, ssum
-from checks import models
+from checks import models, datasets
 
 PID = 'C08'
 FUNCTIONS = ['phylib/io/model.py:' + f for f in (
@@ -29,7 +29,8 @@ ASSUMPTIONS = [
     'dense templates with signal (every template has a positive peak amplitude); geometry, shanks and whitening '
     'from a fixed concrete set',
     'the channel-restricted waveform of a template is get_template(t, unwhiten=False) (C05)',
-    'the merged-vs-identical branch of _load_data is exercised through the loader in C04/C13',
+    'the merged-vs-identical branch of _load_data is exercised through the real loader (configuration kind=load) '
+    'on a generated dataset with symbolic assignments',
 ]
 STUBS = []
 OUTSIDE = ['float rounding of the weighted mean', 'more spikes/templates than the bound']
@@ -69,6 +70,9 @@ def configs(tier):
                 continue
             out.append({'n': n, 'T': 2, 'nc': nc, 'nsw': 2, 'ncl': 2, 'geom': 'line' if nc == 2 else 'square',
                         'wmi': 'dense', 'templates': 'symbolic'})
+    # (C) the merged-vs-identical branch of _load_data, through the real loader on the virtual file system
+    for T in ((2,) if quick else (2, 3)):
+        out.append({'kind': 'load', 'n': 3, 'T': T, 'nc': 3, 'nsw': 2, 'templates': 'loader'})
     return out
 
 
@@ -88,7 +92,42 @@ def run_config(cfg, e):
     e.hash_concretize = True
     e.concretize_shapes = True
 
+    def fn_load():
+        from symx import vfs as vfs_
+        vfs_.reset()
+        dcfg = {'ns': cfg['n'], 'T': cfg['T'], 'nc': cfg['nc'], 'nsw': cfg['nsw'], 'names': 'ks', 'sym': ['ids'],
+                'curated': True, 'wm': 'I', 'optional': {'pc_features': 'no', 'template_features': 'no'}}
+        ds = datasets.build(e, dcfg)
+        e.case_builder = lambda ev: dict(cfg, ds=datasets.case_of(ev, ds))
+        mod = pkg.load('phylib.io.model')
+        try:
+            m = mod.load_model(vfs_.VPath(ds.dir + '/params.py'))
+        except Exception as ex:
+            e.fail('exception %r' % (ex,))
+        ns, T = cfg['n'], cfg['T']
+        same = sand(*[a == b for a, b in zip(ds.sc, ds.st)])
+        if bool(same):
+            e.prove(m.sparse_clusters is m.sparse_templates and m.n_clusters == T and not m.merge_map,
+                    'identical assignments: cluster waveforms must be the template waveforms, as many clusters as templates')
+        else:
+            mx = ds.sc[0]
+            for v in ds.sc[1:]:
+                mx = ite(v > mx, v, mx)
+            ncl_ = core.eng().concretize(core.term_of(mx)) + 1
+            obl = [(m.sparse_clusters is not m.sparse_templates, 'curated dataset treated as uncurated'),
+                   (m.n_clusters == ncl_, 'n_clusters'),
+                   (sorted(int(k) for k in m.merge_map.keys()) == list(range(ncl_)), 'merge_map keys')]
+            for cl in range(ncl_):
+                lst = [int(v) for v in m.merge_map.get(cl, [])]
+                for t in range(T):
+                    has = sor(*[sand(ds.sc[p_] == cl, ds.st[p_] == t) for p_ in range(ns)])
+                    obl.append((has if t in lst else snot(has), 'merge_map[%d] after loading' % cl))
+            e.prove_all(obl)
+        e.witness()
+
     def fn():
+        if cfg.get('kind') == 'load':
+            return fn_load()
         n, T, nc, nsw = cfg['n'], cfg['T'], cfg['nc'], cfg['nsw']
         if cfg['templates'] == 'symbolic':
             data, flat = models.sym_reals(e, 'w', (T, nsw, nc))
@@ -186,6 +225,8 @@ def run_config(cfg, e):
 
 
 def replay(case):
+    if case.get('kind') == 'load':
+        return _replay_load(case)
     n, T, nc, nsw = case['n'], case['T'], case['nc'], case['nsw']
     from symx.loader import real_phylib
     real_phylib()
@@ -238,6 +279,34 @@ def replay(case):
         elif np.any(cdata[c] != 0):
             return 'empty cluster %d has a waveform' % c
     return None
+
+
+def _replay_load(case):
+    import os
+    rd = datasets.RealDS(case['ds'])
+    try:
+        from phylib.io import model as mod
+        try:
+            m = mod.load_model(os.path.join(rd.dir, 'params.py'))
+        except Exception as ex:
+            return 'load_model raised %r' % (ex,)
+        st, sc, T = case['ds']['st'], case['ds']['sc'], case['T']
+        try:
+            if st == sc:
+                if m.sparse_clusters is not m.sparse_templates or m.n_clusters != T:
+                    return 'identical assignments not recognised'
+                return None
+            if m.sparse_clusters is m.sparse_templates:
+                return 'curated dataset (clusters %s, templates %s) treated as uncurated' % (sc, st)
+            for cl in range(max(sc) + 1):
+                want = sorted({st[i] for i in range(len(st)) if sc[i] == cl})
+                if sorted(int(v) for v in m.merge_map.get(cl, [])) != want:
+                    return 'merge_map[%d] = %s, expected %s' % (cl, list(m.merge_map.get(cl, [])), want)
+            return None
+        finally:
+            m.close()
+    finally:
+        rd.close()
 
 
 if __name__ == '__main__':
